@@ -80,6 +80,18 @@ def updateOne (f : Flags) (old cur : List EP) (script : List Resp) : Outcome :=
 /-- `pair <flags> <old> <cur> <script>`; impl: `<0|1> <cmds> <cur'>` or `PANIC` -/
 def handle (args : List String) (impl : String) : Verdict :=
   match args with
+  | "hist" :: _faults :: ops =>
+    -- end-to-end form: the theorems (pair_sound lifted over histories: every step is a reload, which
+    -- loads the files, or a pair update, which keeps running = disk) predict "no difference, ever"
+    let steps := impl.splitOn ","
+    let bad := steps.find? fun st => (st.splitOn ":").length > 1
+    let sig : Option String := bad.map fun st =>
+      if (st.splitOn ":crtdiff:").length > 1 then "certificate-differs-from-disk"
+      else "running-differs-from-disk-after-update"
+    let skip := impl.startsWith "skip:"
+    { model := "all-steps-equal", agree := skip || (bad.isNone && !impl.startsWith "panic"),
+      oracle := if skip then none else if impl.startsWith "panic" then some "panic" else sig,
+      trivial := ops.length < 6 }
   | ["pair", fl, olds, curs, sc] =>
     match parseFlags fl, parseList parseEP olds, parseList parseEP curs, parseList parseResp sc with
     | some f, some old, some cur, some script =>
